@@ -86,6 +86,16 @@ CLAIMED = {
             "field by field, rule by rule, in order.",
             "Token kind of a quoted user-type name inside a rule (reference vs string) is left open by the statement and accepted either way; "
             "exhaustive only over the enumerated schemas.", "3/C16"),
+    "C08": ("TLA+ three-valued requirement Chk!Structure (known / once / applicability by node kind and position / pair ordering / exclusive "
+            "flags / precision-decimal / formats vs length rules / exclusivity of enum, or, any, type references; inert false-valued rules; "
+            "rule-sets inside or) combined with Sem!Verdict on the node's own example; TLC enumerates kinds x positions x ordered rule lists; "
+            "replay through Check with a per-permutation-class agreement test",
+            "Every ordered list of up to 2 (quick) / 3 (thorough) rule instances on 9 node kinds in 3 positions gets the verdict TLC computed "
+            "from the statement; TLC proves the requirement itself order-free; the real verdicts of all permutations of one rule set must "
+            "coincide even where the oracle is silent.",
+            "Cells the statement does not pin are unspecified (enum+const, any+const, type enum/mixed next to enum/or, enum/or/any/type-ref on "
+            "containers, precision on an integer example, const on containers, non-zero item counts on an empty example array, null example "
+            "with a type reference); which of two simultaneous errors is reported is not compared.", "3/C08"),
 }
 
 PENDING_REASON = "check under construction in this session - not claimed yet (no technique switch intended; see DESIGN.md section 3)"
